@@ -10,6 +10,9 @@
 //	import  Machine.Export -> fresh machine -> Machine.Import
 //	crash   (persistent backends) the store's files copied after Sync (= the
 //	        process stops here) and reopened
+//	restart (persistent backends) the process stops after Sync and a NEW process
+//	        (new machine, new memory) re-opens the SAME store and goes on with
+//	        the workload
 //
 // State indexes in the log are 1-based machine indexes.
 package histdrv
@@ -47,6 +50,12 @@ type MutJ struct {
 	States am.S   `json:"states"`
 	Veto   bool   `json:"veto"`
 	Sync   bool   `json:"sync"` // call Sync() after this mutation
+	// Restart (persistent backends; implies Sync): after this mutation the
+	// process stops and a new one re-opens the same store.  "import": the new
+	// machine resumes from the Export of the old one; "fresh": a new machine
+	// with the same id starts from zero clocks; "rebind": only the memory is
+	// disposed and a new one is created for the SAME live machine.
+	Restart string `json:"restart,omitempty"`
 }
 
 type QueryJ struct {
@@ -71,6 +80,19 @@ type Case struct {
 	Muts    []MutJ   `json:"muts"`
 	QSeed   int64    `json:"qseed"`
 	Queries []QueryJ `json:"queries,omitempty"` // explicit (replay); generated when empty
+	// Settle: after EVERY mutation wait until the write-behind goroutines and
+	// a rotation (GC) they started are done before the store is scanned.
+	Settle bool `json:"settle,omitempty"`
+}
+
+// HasRestarts: the workload continues on a re-opened store.
+func (c *Case) HasRestarts() bool {
+	for _, m := range c.Muts {
+		if m.Restart != "" {
+			return true
+		}
+	}
+	return false
 }
 
 // Schemas: 3-4 user states with relations that produce rejected transitions
@@ -154,13 +176,19 @@ type RawRec struct {
 }
 
 type LogEv struct {
-	Ev     string   `json:"ev"`
-	Mi     int      `json:"mi"`
-	Synced bool     `json:"synced"`
-	Quiet  bool     `json:"quiet"` // all spawned writes were seen to finish
-	NextId int      `json:"nextId"`
-	Raw    []RawRec `json:"raw"`
-	Err    string   `json:"err"`
+	Ev     string `json:"ev"`
+	Mi     int    `json:"mi"`
+	Synced bool   `json:"synced"`
+	Quiet  bool   `json:"quiet"` // all spawned writes were seen to finish
+	// Settled: ... and a rotation (GC) started so far was seen to finish
+	Settled bool `json:"settled"`
+	NextId  int  `json:"nextId"`
+	// the memory's own public counters (this memory instance = this process):
+	// records written / value of that counter at the end of the last rotation
+	Saved   int      `json:"saved"`
+	SavedGc int      `json:"savedGc"`
+	Raw     []RawRec `json:"raw"`
+	Err     string   `json:"err"`
 }
 
 type QEv struct {
@@ -218,6 +246,23 @@ type CrashEv struct {
 	Err      string   `json:"err"`
 }
 
+// RestartEv: the process stopped after Sync (writes seen to finish), a new
+// process opened the same store with the same configuration.
+type RestartEv struct {
+	Ev       string   `json:"ev"`
+	Mi       int      `json:"mi"`
+	Kind     string   `json:"kind"`     // import fresh rebind
+	NextId   int      `json:"nextId"`   // of the stopped memory
+	Live     []RawRec `json:"live"`     // the store as the stopped process left it
+	Tracked0 []int    `json:"tracked0"` // record order of the memory that wrote Live
+	Reopened []RawRec `json:"reopened"` // the store as the new process finds it
+	ReNextId int      `json:"reNextId"` // NextId the new memory resumes from
+	Tracked1 []int    `json:"tracked1"` // record order the new memory chose (same configuration)
+	Pinned   bool     `json:"pinned"`   // the order differed: re-opened once more with the order pinned
+	MachTick int      `json:"machTick"` // of the new machine
+	Err      string   `json:"err"`
+}
+
 type EndEv struct {
 	Ev    string `json:"ev"`
 	Ambig bool   `json:"ambig"` // human times not strictly increasing: ids in answers may be unreliable
@@ -237,6 +282,8 @@ type Backend interface {
 	// reopens the copy and returns its records and the NextId a new memory
 	// resumes from.
 	Crash(dir string, mk func() *am.Machine, cfg CfgJ) ([]RawRec, int, error)
+	// Counters: the memory's public Saved / SavedGc counters.
+	Counters() (saved, savedGc int)
 	Close()
 	// Abandon closes the store without Memory.Dispose.
 	Abandon()
@@ -303,6 +350,12 @@ type run struct {
 	ambig    bool
 	panicked bool
 	id0      int // NextId when the memory was created
+	backend  string
+	dir      string
+	id       string
+	h        *handlers
+	order    am.S // record order (TrackedStates) of the memory that created the store
+	settle   bool
 }
 
 func (r *run) emit(ev any) { *r.out = append(*r.out, ev) }
@@ -339,13 +392,18 @@ func baseCfg(c CfgJ) amhist.BaseConfig {
 
 // Run executes the case on one backend and returns its events.
 func Run(c *Case, backend string, o Opts) (evs []any) {
+	if backend == "memory" && c.HasRestarts() {
+		// the in-process slice does not outlive its process
+		return nil
+	}
 	names, _ := Schema(c.Schema)
 	index := append(append(am.S{}, names...), am.StateException)
 	h := &handlers{}
 	id := fmt.Sprintf("hist%d", c.ID)
 	mk := func() *am.Machine { return mkMachine(c, id, nil) }
 	mach := mkMachine(c, id, h)
-	r := &run{c: c, index: index, mach: mach, out: &evs}
+	r := &run{c: c, index: index, mach: mach, out: &evs, backend: backend, h: h, id: id,
+		settle: c.Settle || c.HasRestarts()}
 
 	cev := CaseEv{Ev: "case", Cid: c.ID, Label: c.Label, Backend: backend, Names: index,
 		Cfg: CfgIx{Called: idx1(index, c.Cfg.Called), CalledEx: c.Cfg.CalledEx,
@@ -358,6 +416,7 @@ func Run(c *Case, backend string, o Opts) (evs []any) {
 		panic(err)
 	}
 	defer os.RemoveAll(dir)
+	r.dir = dir
 	b, err := Open(backend, dir, mach, c.Cfg)
 	if err != nil {
 		cev.Err = err.Error()
@@ -368,7 +427,8 @@ func Run(c *Case, backend string, o Opts) (evs []any) {
 	}
 	r.b = b
 	mem := b.Mem()
-	cev.Tracked = idx1(index, mem.Config().TrackedStates)
+	r.order = append(am.S{}, mem.Config().TrackedStates...)
+	cev.Tracked = idx1(index, r.order)
 	ut := am.S{}
 	for _, s := range index {
 		in := func(l am.S) bool {
@@ -390,9 +450,28 @@ func Run(c *Case, backend string, o Opts) (evs []any) {
 	cev.Utracked = idx1(index, ut)
 	r.emit(cev)
 	r.id0 = int(mem.MachineRecord().NextId)
-	if _, err := mach.BindTracer(&refTracer{TracerNoOp: &am.TracerNoOp{}, r: r}); err != nil {
-		panic(err)
-	}
+	r.bindRef()
+
+	// the store is closed and the machine disposed however the block ends
+	defer func() {
+		done := make(chan struct{})
+		go func() {
+			defer func() { recover() }()
+			if r.panicked {
+				// a panicking FindLatest of the K/V backends leaves the GC lock
+				// read-held and Dispose would wait for it forever
+				r.b.Abandon()
+			} else {
+				r.b.Close()
+			}
+			r.mach.Dispose()
+			close(done)
+		}()
+		select {
+		case <-done:
+		case <-time.After(3 * time.Second):
+		}
+	}()
 
 	// workload
 	r.startT = make([]time.Time, len(c.Muts)+2)
@@ -401,6 +480,7 @@ func Run(c *Case, backend string, o Opts) (evs []any) {
 		h.veto = mu.Veto
 		r.startT[k+1] = time.Now().UTC()
 		time.Sleep(time.Microsecond)
+		mach := r.mach
 		switch mu.Type {
 		case "add":
 			mach.Add(mu.States, nil)
@@ -419,15 +499,25 @@ func Run(c *Case, backend string, o Opts) (evs []any) {
 		time.Sleep(time.Microsecond)
 		last := k == len(c.Muts)-1
 		synced := false
-		if mu.Sync || last {
-			if err := mem.Sync(); err != nil {
+		if mu.Sync || last || mu.Restart != "" {
+			if err := r.b.Mem().Sync(); err != nil {
 				panic(err)
 			}
 			synced = true
 		}
-		r.logEv(synced)
+		quiet := r.logEv(synced)
 		if synced && o.Crash && backend != "memory" {
 			r.crash(dir, mk)
+		}
+		if mu.Restart != "" && !last {
+			if !quiet || !r.restart(mu.Restart) {
+				// nothing to continue on (the event says why)
+				for j := k + 2; j < len(r.startT); j++ {
+					r.startT[j] = time.Now().UTC()
+				}
+				r.emit(EndEv{Ev: "end", Ambig: r.ambig})
+				return
+			}
 		}
 	}
 	r.startT[len(c.Muts)+1] = time.Now().UTC()
@@ -435,7 +525,7 @@ func Run(c *Case, backend string, o Opts) (evs []any) {
 	// queries
 	qs := c.Queries
 	if len(qs) == 0 {
-		qs = GenQueries(c, ut, index, int(mach.Time(nil).Sum(nil)))
+		qs = GenQueries(c, ut, index, int(r.mach.Time(nil).Sum(nil)))
 	}
 	for i, q := range qs {
 		r.query(i+1, q)
@@ -449,39 +539,182 @@ func Run(c *Case, backend string, o Opts) (evs []any) {
 	// export / import
 	r.importEv(mk)
 	r.emit(EndEv{Ev: "end", Ambig: r.ambig})
-
-	done := make(chan struct{})
-	go func() {
-		defer func() { recover() }()
-		if r.panicked {
-			// a panicking FindLatest of the K/V backends leaves the GC lock
-			// read-held and Dispose would wait for it forever
-			b.Abandon()
-		} else {
-			b.Close()
-		}
-		mach.Dispose()
-		close(done)
-	}()
-	select {
-	case <-done:
-	case <-time.After(3 * time.Second):
-	}
 	return
 }
 
-func (r *run) logEv(synced bool) {
+func (r *run) bindRef() {
+	if _, err := r.mach.BindTracer(&refTracer{TracerNoOp: &am.TracerNoOp{}, r: r}); err != nil {
+		panic(err)
+	}
+}
+
+// restart: the process stops (Sync has returned, its writes were seen to
+// finish: logEv) and a new one opens the same store with the same
+// configuration, for a machine with the same id.  Returns false when there is
+// nothing to go on with.
+func (r *run) restart(kind string) bool {
+	c := r.c
+	old := r.b.Mem()
+	ev := RestartEv{Ev: "restart", Mi: r.mi, Kind: kind, NextId: int(old.MachineRecord().NextId),
+		Live: r.raw, Tracked0: idx1(r.index, r.order), Reopened: []RawRec{}, Tracked1: []int{}}
+	if ev.Live == nil {
+		ev.Live = []RawRec{}
+	}
+	fail := func(err error) bool {
+		ev.Err = err.Error()
+		if len(ev.Err) > 200 {
+			ev.Err = ev.Err[:200]
+		}
+		r.emit(ev)
+		return false
+	}
+
+	// what a resuming process would carry over, through the wire format
+	var ser *am.Serialized
+	if kind == "import" {
+		s0, _, err := r.mach.Export()
+		if err != nil {
+			return fail(fmt.Errorf("export: %w", err))
+		}
+		bt, _ := json.Marshal(s0)
+		ser = &am.Serialized{}
+		if err := json.Unmarshal(bt, ser); err != nil {
+			return fail(fmt.Errorf("export: %w", err))
+		}
+	}
+
+	// stop
+	rebind := kind == "rebind"
+	closed := make(chan struct{})
+	go func() {
+		defer func() { recover() }()
+		r.b.Close()
+		if rebind {
+			// the reference tracer has to run AFTER the history tracer
+			_ = r.mach.DetachTracer((&refTracer{}).TracerId())
+		} else {
+			r.mach.Dispose()
+		}
+		close(closed)
+	}()
+	select {
+	case <-closed:
+	case <-time.After(2 * time.Minute):
+		// a starved host or a hanging Dispose: no verdict (the driver dies)
+		panic("restart: the memory did not close within 2 minutes")
+	}
+
+	// start
+	c2 := *c
+	c2.PreTick = 0
+	live := r.mach
+	open1 := func(cfg CfgJ) (*am.Machine, Backend, error) {
+		if rebind {
+			b, err := Open(r.backend, r.dir, live, cfg)
+			return live, b, err
+		}
+		m := mkMachine(&c2, r.id, nil)
+		if ser != nil {
+			if err := m.Import(ser); err != nil {
+				m.Dispose()
+				return nil, nil, fmt.Errorf("import: %w", err)
+			}
+		}
+		if _, err := m.BindHandlers(r.h); err != nil {
+			panic(err)
+		}
+		b, err := Open(r.backend, r.dir, m, cfg)
+		if err != nil {
+			m.Dispose()
+			return nil, nil, err
+		}
+		return m, b, nil
+	}
+	m, b, err := open1(c.Cfg)
+	r.mach, r.b = m, b
+	if err != nil {
+		// keep the deferred close of Run harmless
+		r.mach, r.b = live, nopBackend{}
+		if !rebind {
+			r.mach = mkMachine(&c2, r.id, nil)
+		}
+		return fail(err)
+	}
+	ev.ReNextId = int(b.Mem().MachineRecord().NextId)
+	order := b.Mem().Config().TrackedStates
+	ev.Tracked1 = idx1(r.index, order)
+	raw, err := b.Raw()
+	if raw == nil {
+		raw = []RawRec{}
+	}
+	ev.Reopened = raw
+	if err != nil {
+		return fail(err)
+	}
+	if strings.Join(order, ",") != strings.Join(r.order, ",") {
+		// The new memory lays its records out in another order than the one
+		// that wrote the store (judged by TLC).  To go on with the rest of the
+		// workload the store is opened once more with the order pinned: a list
+		// with a duplicate keeps its order in Machine.ParseStates.
+		ev.Pinned = true
+		b.Close()
+		if !rebind {
+			m.Dispose()
+		}
+		cfg := c.Cfg
+		cfg.Tracked = append(append(am.S{}, r.order...), r.order[0])
+		m, b, err = open1(cfg)
+		r.mach, r.b = m, b
+		if err != nil {
+			r.mach, r.b = live, nopBackend{}
+			if !rebind {
+				r.mach = mkMachine(&c2, r.id, nil)
+			}
+			return fail(err)
+		}
+		o2 := b.Mem().Config().TrackedStates
+		if strings.Join(o2, ",") != strings.Join(r.order, ",") {
+			return fail(fmt.Errorf("pinned order not kept: %v", o2))
+		}
+		if n := int(b.Mem().MachineRecord().NextId); n != ev.ReNextId {
+			return fail(fmt.Errorf("NextId changed by an idle re-open: %d -> %d", ev.ReNextId, n))
+		}
+	}
+	ev.MachTick = int(r.mach.MachineTick())
+	r.id0 = ev.ReNextId
+	r.bindRef()
+	r.emit(ev)
+	return ev.ReNextId == ev.NextId
+}
+
+// nopBackend stands in after a failed re-open.
+type nopBackend struct{}
+
+func (nopBackend) Mem() amhist.MemoryApi  { return nil }
+func (nopBackend) Raw() ([]RawRec, error) { return nil, nil }
+func (nopBackend) Quiesce(int) bool       { return true }
+func (nopBackend) Crash(string, func() *am.Machine, CfgJ) ([]RawRec, int, error) {
+	return nil, 0, nil
+}
+func (nopBackend) Counters() (int, int) { return 0, 0 }
+func (nopBackend) Close()               {}
+func (nopBackend) Abandon()             {}
+
+func (r *run) logEv(synced bool) bool {
 	mem := r.b.Mem()
 	next := int(mem.MachineRecord().NextId)
 	ev := LogEv{Ev: "log", Mi: r.mi, Synced: synced, NextId: next}
 	ev.Quiet = r.b.Quiesce(next - r.id0)
-	if synced {
-		// a pending GC holds the write side of the GC lock: a query waits for it
+	if synced || r.settle {
+		// a pending GC holds the write side of the GC lock (taken by the tracer
+		// before it returns): a query waits for it
 		func() {
 			defer func() { recover() }()
 			_, _ = mem.FindLatest(context.Background(), false, 1, amhist.Query{})
+			ev.Settled = true
 		}()
 	}
+	ev.Saved, ev.SavedGc = r.b.Counters()
 	raw, err := r.b.Raw()
 	if err != nil {
 		ev.Err = err.Error()
@@ -497,6 +730,7 @@ func (r *run) logEv(synced bool) {
 	ev.Raw = raw
 	r.raw = raw
 	r.emit(ev)
+	return ev.Quiet && ev.Err == ""
 }
 
 func (r *run) crash(dir string, mk func() *am.Machine) {
@@ -849,6 +1083,81 @@ func GenCase(r *rand.Rand, id int, maxMuts int) *Case {
 	}
 	c.Label = fmt.Sprintf("%s/c%v%v/ch%v%v/rej%v/tr%v/max%d/b%d/n%d", c.Schema, cf.Called,
 		cf.CalledEx, cf.Changed, cf.ChangedEx, cf.Rejected, cf.Tracked, cf.Max, cf.Batch, n)
+	return c
+}
+
+// GenRestartCase: a workload that goes on across process restarts (persistent
+// backends): 2..maxProcs processes on the same store, each one either short
+// (stops before its own rotation threshold) or long enough to rotate at least
+// once (more than 1.5*Max + 2*batch recorded transitions), in every order;
+// the new machine resumes from an Export ("import") or starts from zero
+// ("fresh"), or only the memory is replaced on the live machine ("rebind");
+// tracking configurations as in GenCase.
+func GenRestartCase(r *rand.Rand, id int, maxProcs int) *Case {
+	c := &Case{ID: id, Schema: SchemaKinds[r.Intn(len(SchemaKinds))], QSeed: r.Int63(), Settle: true}
+	names, _ := Schema(c.Schema)
+	if r.Intn(6) == 0 {
+		c.PreTick = 1 + r.Intn(2)
+	}
+	cf := &c.Cfg
+	switch r.Intn(6) {
+	case 0:
+		cf.Called = pick(r, names, 2, 0.6)
+	case 1:
+		cf.Changed = pick(r, names, 2, 0.6)
+	case 2:
+		cf.Called = pick(r, names, 2, 0.5)
+		cf.Changed = pick(r, names, 2, 0.5)
+	}
+	cf.CalledEx = len(cf.Called) > 0 && r.Intn(2) == 0
+	cf.ChangedEx = len(cf.Changed) > 0 && r.Intn(2) == 0
+	cf.Rejected = r.Intn(2) == 0
+	cf.Tracked = pick(r, names, 3, 0.55)
+	if len(cf.Tracked) == 0 && (len(cf.Called) == 0 || cf.CalledEx) &&
+		(len(cf.Changed) == 0 || cf.ChangedEx) {
+		cf.Tracked = am.S{names[r.Intn(len(names))]}
+	}
+	cf.Max = 1 + r.Intn(3)
+	cf.Batch = 1 + r.Intn(3)
+	// recorded transitions a process needs before its first rotation
+	thr := (3*cf.Max)/2 + 2*cf.Batch + 1
+	procs := 2 + r.Intn(maxProcs-1)
+	shape := ""
+	for p := 0; p < procs; p++ {
+		n := 1 + r.Intn(4)
+		long := r.Intn(5) < 3
+		if long {
+			n = thr + 1 + r.Intn(4)
+			shape += "L"
+		} else {
+			shape += "s"
+		}
+		for i := 0; i < n; i++ {
+			mu := MutJ{States: pick(r, names, 2, 0.5)}
+			if len(mu.States) == 0 {
+				mu.States = am.S{names[r.Intn(len(names))]}
+			}
+			switch x := r.Intn(20); {
+			case x < 10:
+				mu.Type = "add"
+			case x < 17:
+				mu.Type = "remove"
+			case x < 19:
+				mu.Type = "set"
+			default:
+				mu.Type = "canadd"
+			}
+			mu.Veto = r.Intn(12) == 0
+			mu.Sync = r.Intn(4) == 0
+			if i == n-1 && p < procs-1 {
+				mu.Restart = []string{"import", "import", "fresh", "fresh", "rebind"}[r.Intn(5)]
+				shape += mu.Restart[:1]
+			}
+			c.Muts = append(c.Muts, mu)
+		}
+	}
+	c.Label = fmt.Sprintf("restart:%s/%s/c%v%v/ch%v%v/rej%v/tr%v/max%d/b%d/n%d", shape, c.Schema, cf.Called,
+		cf.CalledEx, cf.Changed, cf.ChangedEx, cf.Rejected, cf.Tracked, cf.Max, cf.Batch, len(c.Muts))
 	return c
 }
 
